@@ -92,7 +92,7 @@ where
 {
     let (evs, ill) = build_events(&init, c);
     let mut tester = T::make(init.clone());
-    let use_invret = ill.is_none() && c.mutation.3 % 2 == 0;
+    let use_invret = c.mutation.3 % 2 == 0;
     let oks = feed::<S, T>(&mut tester, &evs, use_invret);
     cov.eval();
     cov.label(spec_label(c));
@@ -103,6 +103,9 @@ where
         ensure!(!tester.is_consistent(), format!("{}/ill-formed-history-consistent", prefix), "ill-formed history {:?} is reported consistent", evs);
         ensure!(tester.serialized().is_none(), format!("{}/ill-formed-history-serialized", prefix), "ill-formed history {:?} has a serialization", evs);
         cov.label("ill_formed");
+        // the second invocation of a busy thread arrived through on_invret (with its return)
+        let via_invret = use_invret && matches!((&evs[p], evs.get(p + 1)), (Ev::Inv(t1, _), Some(Ev::Ret(t2, _))) if t1 == t2);
+        cov.label_if(via_invret, "ill_formed_double_invocation_through_on_invret");
         cov.nontrivial(&(T::NAME, c));
         return Ok(());
     }
@@ -175,6 +178,9 @@ where
 
 pub struct Lin;
 impl SubCheck for Lin {
+    fn fuzzable(&self) -> bool {
+        true
+    }
     type Case = HistCase;
     fn name(&self) -> &'static str {
         "linearizability_vs_brute_force"
@@ -189,7 +195,7 @@ impl SubCheck for Lin {
         dispatch::<()>(c, true, cov, "c08")
     }
     fn mandatory(&self) -> Vec<&'static str> {
-        vec!["consistent", "inconsistent", "sequentially_consistent_but_not_linearizable", "in_flight_needed", "ill_formed", "has_in_flight", "spec_register", "spec_write_once_register", "spec_vec", "spec_generated_table"]
+        vec!["consistent", "inconsistent", "sequentially_consistent_but_not_linearizable", "in_flight_needed", "ill_formed", "ill_formed_double_invocation_through_on_invret", "has_in_flight", "spec_register", "spec_write_once_register", "spec_vec", "spec_generated_table"]
     }
 }
 
